@@ -102,7 +102,8 @@ AcctEntry(cfg, scope, hdr, b) ==
    IF AsAcct(b).cls # "ok" THEN Rep(2, 0, MExpAcct, NoH)
    ELSE LET k == AsAcct(b).v IN
         IF ~HasUser(cfg, scope, k.user) THEN Rep(2, 0, MAcctLookupPfx \o k.user \o MAcctLookupSfx, NoH)
-        ELSE IF ~EffAcct(TheUser(cfg, scope, k.user)) THEN Rep(2, 0, MAcctDenied, NoH)
+        \* no accounter, or one of a type no factory is registered for (the loader leaves the default: denied)
+        ELSE IF ~EffAcct(TheUser(cfg, scope, k.user)) \/ AcctKind(TheUser(cfg, scope, k.user)) = "stderr" THEN Rep(2, 0, MAcctDenied, NoH)
         ELSE LET r == CASE k.flags = 2 -> Rep(1, 0, MAcctStart, NoH)
                         [] k.flags = 4 -> Rep(1, 0, MAcctStop, NoH)
                         [] k.flags = 8 -> IF hdr.seq = 1 THEN Rep(1, 0, MAcctWatchdog, NoH) ELSE Rep(2, 0, MAcctBadSeq, NoH)
